@@ -478,6 +478,33 @@ func main() {
 			time.Sleep(8 * time.Second)
 		}
 
+	case "pausehang":
+		// a store is stopped (SIGSTOP), not killed: are writes accepted again?
+		for round := 0; round < 5; round++ {
+			cur, _ := c.meta()
+			x := cur.MasterIdx
+			logf("round %d: SIGSTOP master store%d (raft leader store%d)", round, x+1, c.raftLeader(-1)+1)
+			c.Stores[x].Pause()
+			m2 := c.waitMaster(x)
+			time.Sleep(3 * time.Second)
+			logf("  meta: %v; raft leader now store%d", m2, c.raftLeader(x)+1)
+			okN, failN := 0, 0
+			start := time.Now()
+			for i := 0; i < 6; i++ {
+				t0 := time.Now()
+				r := c.Front.Write(db, pt("p", round*100+i, 1), nil)
+				if r.Acked() {
+					okN++
+				} else {
+					failN++
+					logf("  write %d not acknowledged after %.1fs: status %d %.100s", i, time.Since(t0).Seconds(), r.Status, strings.TrimSpace(r.Body))
+				}
+			}
+			logf("  RESULT pausehang round %d: master store%d, raft leader store%d, %d writes acknowledged, %d not, in %.1fs", round, m2.MasterIdx+1, c.raftLeader(x)+1, okN, failN, time.Since(start).Seconds())
+			c.Stores[x].Resume()
+			time.Sleep(12 * time.Second)
+		}
+
 	case "lww":
 		// no fault at all: overwrite across flush generations on every replica
 		K := func(v int64) string {
